@@ -126,10 +126,10 @@ func Observe(name string, v interface{}) {
 		fmt.Printf("OBS %s %v\n", name, x)
 	}
 }
-func Symbolic() bool  { return false }
-func Fail(msg string) { panic("harness: " + msg) }
-func MapOrder() int   { return 0 }
-func Callers() string { return "" }
+func Symbolic() bool                          { return false }
+func Fail(msg string)                         { panic("harness: " + msg) }
+func MapOrder() int                           { return 0 }
+func Callers() string                         { return "" }
 func ObserveValue(name string, v interface{}) {}
 func ObserveBlob(name string, bz []byte)      {}
 
